@@ -1399,13 +1399,16 @@ type gateReader struct {
 	gate    chan struct{}
 	openErr int
 	items   []*openfgav1.Tuple
-	iters   []*fakeIter
-	mu      sync.Mutex
+	iters    []*fakeIter
+	mu       sync.Mutex
+	released atomic.Bool
 }
 
 func (g *gateReader) open(ctx context.Context) (storage.TupleIterator, error) {
-	g.entered <- struct{}{}
-	<-g.gate
+	if !g.released.Load() { // only the creator's read is held; later (fallback) reads go straight through
+		g.entered <- struct{}{}
+		<-g.gate
+	}
 	if err := ctx.Err(); err != nil {
 		return nil, err
 	}
@@ -1456,8 +1459,9 @@ func runAdmission(w *rec.Writer, d caseDesc) {
 	if withCache {
 		inner = storagewrappers.NewCachedDatastore(srvCtx, g, newRecCache(), 100, time.Hour, &singleflight.Group{}, &sync.WaitGroup{})
 	}
+	// timers that never fire: the item stays admitted, every joiner gets a clone of it
 	ds := sharediterator.NewSharedIteratorDatastore(inner, sharediterator.NewSharedIteratorDatastoreStorage(),
-		sharediterator.WithMaxAdmissionTime(2*time.Millisecond), sharediterator.WithMaxIdleTime(time.Millisecond))
+		sharediterator.WithMaxAdmissionTime(time.Hour), sharediterator.WithMaxIdleTime(time.Hour))
 
 	nreq := r.Range(1, 4)
 	creatorDead := r.Chance(1, 2) // the creator's context is cancelled while its read is in flight
@@ -1503,6 +1507,7 @@ func runAdmission(w *rec.Writer, d caseDesc) {
 		}
 	}
 	if skip {
+		g.released.Store(true)
 		for i := 0; i < 8; i++ {
 			select {
 			case g.gate <- struct{}{}:
@@ -1520,6 +1525,7 @@ func runAdmission(w *rec.Writer, d caseDesc) {
 	if creatorDead {
 		cancels[0]()
 	}
+	g.released.Store(true)
 	g.gate <- struct{}{}
 	outs := make([]rec.V, nreq)
 	for i := 0; i < nreq; i++ {
@@ -1548,4 +1554,194 @@ func runAdmission(w *rec.Writer, d caseDesc) {
 		w.Stat("D.joined_a_cancelled_creator", 1)
 	}
 	w.Case(d, rec.I(4), rec.I(nreq), rec.Bool(creatorDead), rec.I(g.openErr), rec.L(outs...), rec.I(hung))
+}
+
+// ---------------------------------------------------------------------------------------------
+// class S: clones of one shared iterator with an explicit operation alphabet: clone (a new consumer),
+// Next / Head, read-to-the-end, and Stop -- also repeated Stop, Stop after exhaustion and reads after
+// Stop -- over results that span several 100-tuple fetch batches.  layer 0: shared iterator directly
+// over the scripted reader, timers of one hour (the storage item stays admitted, so the reference
+// count is observable: the reader's iterator must never be stopped); layer 1: over CachedDatastore,
+// timers of a few tens of milliseconds.
+
+func sameTuple(a, b *openfgav1.Tuple) bool { return string(tupleV(a)) == string(tupleV(b)) }
+
+func runSharedClones(w *rec.Writer, d caseDesc) {
+	r := rec.NewRand(mix(d.Seed, 5, d.Idx))
+	layer := 0
+	if r.Chance(1, 3) {
+		layer = 1
+	}
+	srvCtx, cancel := context.WithCancel(context.Background())
+	defer cancel()
+	reader := &fakeReader{srvCancel: cancel}
+	var below storage.RelationshipTupleReader = reader
+	adm, idle := time.Hour, time.Hour
+	if layer == 1 {
+		below = storagewrappers.NewCachedDatastore(srvCtx, reader, newRecCache(), 10000, time.Hour, &singleflight.Group{}, &sync.WaitGroup{})
+		adm, idle = time.Duration(r.Range(30, 50))*time.Millisecond, time.Duration(r.Range(15, 30))*time.Millisecond
+	}
+	ds := sharediterator.NewSharedIteratorDatastore(below, sharediterator.NewSharedIteratorDatastoreStorage(),
+		sharediterator.WithMaxAdmissionTime(adm), sharediterator.WithMaxIdleTime(idle))
+
+	q := genQuery(r)
+	for q.kind == 0 && (q.relation == "" || q.object == "" || q.object == "doc" || q.object == "doc:") {
+		q = genQuery(r)
+	}
+	q.computeKeys()
+	q.items = genItems(r, q, false)
+	if r.Chance(2, 3) { // several fetch batches
+		want := r.Range(250, 400)
+		for len(q.items) < want {
+			q.items = append(q.items, genItems(r, q, false)...)
+		}
+		q.items = q.items[:want]
+	}
+	reader.next = &plan{items: q.items}
+
+	type client struct {
+		it       storage.TupleIterator
+		got      int
+		prefixOK bool
+		done     bool // Done received before this consumer called Stop
+		stopped  bool
+		stops    int
+		afterOK  bool // after Stop every Next / Head answered Done or an error
+		errs     int
+	}
+	var clients []*client
+	var ops []rec.V
+	innerStopped := func() rec.V {
+		reader.mu.Lock()
+		defer reader.mu.Unlock()
+		if len(reader.all) == 0 {
+			return rec.I(0)
+		}
+		f := reader.all[0]
+		f.mu.Lock()
+		defer f.mu.Unlock()
+		return rec.Bool(f.stopped)
+	}
+	open := func() {
+		it, err := q.open(context.Background(), ds, false)
+		if err != nil {
+			ops = append(ops, rec.L(rec.I(0), rec.I(0), innerStopped()))
+			return
+		}
+		clients = append(clients, &client{it: it, prefixOK: true, afterOK: true})
+		ops = append(ops, rec.L(rec.I(0), rec.I(1), innerStopped()))
+	}
+	next := func(c *client, mode int) bool {
+		ctx, cf := ctxFor(mode)
+		defer cf()
+		t, err := c.it.Next(ctx)
+		switch errClass(err) {
+		case 0:
+			if c.stopped {
+				c.afterOK = false
+			}
+			if c.got >= len(q.items) || !sameTuple(t, q.items[c.got]) {
+				c.prefixOK = false
+			}
+			c.got++
+			return true
+		case 1:
+			if !c.stopped {
+				c.done = true
+			}
+		default:
+			if mode == 0 {
+				c.errs++
+			}
+		}
+		return false
+	}
+	stop := func(ci int) {
+		c := clients[ci]
+		c.it.Stop()
+		c.stopped = true
+		c.stops++
+		ops = append(ops, rec.L(rec.I(1), rec.I(ci), innerStopped()))
+	}
+	open()
+	nops := r.Range(4, 30)
+	for s := 0; s < nops; s++ {
+		x := r.Intn(100)
+		switch {
+		case len(clients) == 0 || (x < 12 && len(clients) < 4):
+			open()
+		case x < 40:
+			c := rec.Pick(r, clients)
+			for k := r.Range(1, 120); k > 0; k-- {
+				mode := 0
+				if r.Chance(1, 40) {
+					mode = 1 + r.Intn(2)
+				}
+				if !next(c, mode) && mode == 0 {
+					break
+				}
+			}
+		case x < 48:
+			c := rec.Pick(r, clients)
+			ctx, cf := ctxFor(0)
+			t, err := c.it.Head(ctx)
+			cf()
+			if err == nil {
+				if c.stopped {
+					c.afterOK = false
+				}
+				if c.got >= len(q.items) || !sameTuple(t, q.items[c.got]) {
+					c.prefixOK = false
+				}
+			}
+		case x < 60:
+			c := rec.Pick(r, clients)
+			for k := 0; k < len(q.items)+2 && next(c, 0); k++ {
+			}
+		default: // Stop, quite often on a consumer that has been stopped already
+			ci := r.Intn(len(clients))
+			stop(ci)
+			if r.Chance(1, 2) {
+				stop(ci)
+			}
+		}
+	}
+	// a consumer that arrives now and reads everything, then everybody stops (some twice)
+	open()
+	last := clients[len(clients)-1]
+	for k := 0; k < len(q.items)+2 && next(last, 0); k++ {
+	}
+	for ci := range clients {
+		stop(ci)
+		if r.Chance(1, 3) {
+			stop(ci)
+		}
+	}
+	hung := 0
+	if layer == 1 { // the timers release the base iterator; the cache layer then stops the reader's iterator
+		reader.mu.Lock()
+		all := append([]*fakeIter(nil), reader.all...)
+		reader.mu.Unlock()
+		for _, f := range all {
+			if f.waitEvent() != evStopped {
+				hung = 1
+			}
+		}
+	}
+	cs := make([]rec.V, len(clients))
+	double := 0
+	for i, c := range clients {
+		cs[i] = rec.L(rec.Bool(c.done), rec.I(c.got), rec.Bool(c.prefixOK), rec.Bool(c.afterOK), rec.I(c.stops), rec.I(c.errs))
+		if c.stops > 1 {
+			double++
+		}
+	}
+	w.Stat("S.scenarios", 1)
+	w.Stat(fmt.Sprintf("S.layer_%d", layer), 1)
+	w.Stat("S.consumers", len(clients))
+	w.Stat("S.consumers_stopped_more_than_once", double)
+	if len(q.items) > 100 {
+		w.Stat("S.results_over_one_batch", 1)
+	}
+	w.Case(d, rec.I(5), rec.I(layer), rec.I(len(q.items)), rec.L(ops...), rec.L(cs...), rec.I(hung))
 }
